@@ -211,6 +211,44 @@ func init() {
 		fr.i.nextGo = len(fr.i.spawned)
 		return nil
 	}
+	// ---- thread mode (threads.go)
+	intrinsics["vThreads"] = func(fr *frame, args []value) value { threadsStart(); return nil }
+	intrinsics["vYield"] = func(fr *frame, args []value) value {
+		if sch != nil {
+			sch.yield()
+		}
+		return nil
+	}
+	intrinsics["vLiveThreads"] = func(fr *frame, args []value) value {
+		n := 0
+		if sch != nil {
+			for _, t := range sch.threads[1:] {
+				if !t.done {
+					n++
+				}
+			}
+		}
+		return n
+	}
+	intrinsics["vTimerCount"] = func(fr *frame, args []value) value { return len(timerRecs) }
+	intrinsics["vTimerNanos"] = func(fr *frame, args []value) value { return timerRecs[asInt64(args[0])].d }
+	intrinsics["vTimerArmed"] = func(fr *frame, args []value) value { return timerRecs[asInt64(args[0])].armed }
+	// vTimerFire(k): the k-th timer created on this path expires now: its AfterFunc callback is
+	// started on a goroutine of its own (thread mode), as the runtime does
+	intrinsics["vTimerFire"] = func(fr *frame, args []value) value {
+		t := timerRecs[asInt64(args[0])]
+		if !t.armed || t.f == nil {
+			return nil
+		}
+		was := t.armed
+		journalFn(func() { t.armed = was })
+		t.armed = false
+		if sch == nil {
+			panic(engineErr("vTimerFire needs vThreads()"))
+		}
+		sch.spawn("timer callback", t.f, nil)
+		return nil
+	}
 	// vHash(kind, data, n): n bytes of an uninterpreted hash of data (functionally consistent per path)
 	intrinsics["vHash"] = func(fr *frame, args []value) value {
 		return uninterpretedHash(nameArg(args[0]), cellsOf(args[1]), int(asInt64(args[2])))
